@@ -191,6 +191,26 @@ namespace vu {
    };
 
 
+   // The first line of every execution: the identities the constants got (1..71 when they are pairwise distinct),
+   // what each constant reads as, and whether a second Lexicon alive at the same time returns the very same nodes.
+   inline Value init_event(Interp& in)
+   {
+      auto init = Value::object();
+      auto cs = Value::array(), obs = Value::array();
+      for (int c : in.w.consts) cs.push(c);
+      for (int id = 1; id <= vh::World::NConst; ++id) obs.push(in.w.obs(id));
+      bool shared = true;
+      {
+         vh::World other;
+         other.init_consts();
+         for (int id = 1; id <= vh::World::NConst - 1 and shared; ++id)      // 71 is the per-unit name of the global namespace
+            shared = other.ent(id).raw == in.w.ent(id).raw;
+      }
+      init.set("op", "init").set("a", cs).set("q", 0).set("w", "").set("out", "ok").set("r", 0).set("o", Interp::no_obs())
+         .set("consts", obs).set("shared", shared);
+      return init;
+   }
+
    // Random driver
    struct Rng {
       std::mt19937_64 g;
